@@ -103,6 +103,15 @@ def total(x):
     return acc
 
 
+def total_t(x):
+    """sum of all elements of a 1-D array of symbolic extent (the recursive spec function), or of a concrete array"""
+    if isinstance(x, TArr):
+        from .tarr import sum_fn, kind_of_dtype
+        kd = kind_of_dtype(x.dtype)
+        return mk(sum_fn(kd)(x.term, z3.IntVal(0), term_of(raw(x.shape[0]), "int")), kd)
+    return total(x)
+
+
 def sumr(x, lo, hi):
     es = elems(x)
     acc = 0
@@ -224,8 +233,20 @@ def _scalar_same(a, b):
     return a is b or a == b
 
 
+def same_tarr(a, b):
+    if not (isinstance(a, TArr) and isinstance(b, TArr)) or len(a.shape) != len(b.shape):
+        return False
+    I = CURRENT["interp"]
+    idx = [z3.Int(I.ctx.fresh_name("k")) for _ in a.shape]
+    bound = z3.And(*[z3.And(i >= 0, i < term_of(raw(n), "int")) for i, n in zip(idx, a.shape)])
+    shp = z3.And(*[term_of(raw(p), "int") == term_of(raw(q), "int") for p, q in zip(a.shape, b.shape)])
+    return mk(z3.And(shp, z3.ForAll(idx, z3.Implies(bound, z3.Select(a.term, *idx) == z3.Select(b.term, *idx)))), "bool")
+
+
 def same(a, b):
     """deep, NaN-aware equality of values (numbers, arrays, lists, dicts, None, strings)."""
+    if isinstance(a, TArr) or isinstance(b, TArr):
+        return same_tarr(a, b)
     if isarray(a) or isarray(b):
         if not (isarray(a) and isarray(b)):
             return False
@@ -357,7 +378,7 @@ def close(a, b, rel=1e-9, abs_=1e-12):
         return False
 
 
-__all__ += ["close"]
+__all__ += ["close", "total_t"]
 
 
 def div(a, b):
